@@ -1258,6 +1258,12 @@ func (g *gen) genHistory(l0 int64) txnCase {
 			c.steps = append(c.steps, g.genOverride())
 		}
 	}
+	if c.live && r.Chance(18) {
+		// the file cache (in the child's own directory) instead of the memory cache
+		c.family += "+filecache"
+		c.steps = append(c.steps, stepIn{Kind: "override", Idx: g.by["cache.type"], Val: val{K: "s", S: "file"}, Limit: -1})
+		c.steps = append(c.steps, stepIn{Kind: "override", Idx: g.by["cache.file.dir"], Val: val{K: "s", S: "cachedir/"}, Limit: -1})
+	}
 	if c.live {
 		c.steps = append(c.steps, stepIn{Kind: "live"})
 	}
@@ -1511,9 +1517,9 @@ func (g *gen) vfCases(quick bool) []vfCase {
 		}
 	}
 	// several boundaries at once
-	n := 30
+	n := 100
 	if !quick {
-		n = 400
+		n = 2000
 	}
 	for k := 0; k < n; k++ {
 		c := vfCase{bases: map[string]val{}, overs: map[string]val{}, note: "multi"}
@@ -1649,9 +1655,9 @@ func runC18() {
 			"Definition base_leaves : list leaf := " + emit.List(bl) + ".",
 		CaseType: "txn_case", CheckFn: "check_txn tbl"}
 
-	nHist, sweepStep := 110, int64(1)
+	nHist, sweepStep := 360, int64(1)
 	if thorough() {
-		nHist = 1500
+		nHist = 9000
 	}
 	var hists []txnCase
 	for i := 0; i < nHist; i++ {
@@ -1659,7 +1665,12 @@ func runC18() {
 	}
 	// sweeps: the write limit at every byte count 0 .. L+3 of the file, the document toggling settings so
 	// that every accepted step changes the file
-	sweepDocs := []string{`{"logging":{"compress":%t},"cache":{"max_cache_size":"%dK"}}`}
+	sweepDocs := []string{`{"logging":{"compress":%t},"cache":{"max_cache_size":"%dK"}}`,
+		`{"proxy":{"retry_on_range_416":%t},"cache":{"cleanup_interval":"%dm","lock_shards":7}}`,
+		`{"webserver":{"dashboard_disabled":%t},"logging":{"max_backups":%d,"file":""}}`}
+	if !thorough() {
+		sweepDocs = sweepDocs[:1]
+	}
 	var sweep txnCase
 	var sweeps []txnCase
 	flush := func() {
@@ -1675,18 +1686,20 @@ func runC18() {
 		}
 		return c
 	}
-	sweep = newSweep(true)
 	tog := 0
-	for n := int64(0); n <= l0+3; n += sweepStep {
-		tog++
-		doc := fmt.Sprintf(sweepDocs[0], tog%2 == 0, 1+tog%7)
-		sweep.steps = append(sweep.steps, stepIn{Kind: "update", Doc: doc, Limit: n})
-		if len(sweep.steps) >= 90 {
-			flush()
-			sweep = newSweep(len(sweeps)%2 == 0)
+	for _, sd := range sweepDocs {
+		sweep = newSweep(true)
+		for n := int64(0); n <= l0+12; n += sweepStep {
+			tog++
+			doc := fmt.Sprintf(sd, tog%2 == 0, 1+tog%7)
+			sweep.steps = append(sweep.steps, stepIn{Kind: "update", Doc: doc, Limit: n})
+			if len(sweep.steps) >= 90 {
+				flush()
+				sweep = newSweep(len(sweeps)%2 == 0)
+			}
 		}
+		flush()
 	}
-	flush()
 	// spread the (long) sweeps evenly over the case files
 	if len(sweeps) > 0 {
 		gap := len(hists)/len(sweeps) + 1
